@@ -508,6 +508,9 @@ func (e *Enc) strFacts() []string {
 // ground instance of extensionality that ties = to length and bytes.
 func (e *Enc) strEq(a, b string) string {
 	eq := fmt.Sprintf("(= %s %s)", a, b)
+	if strings.Contains(a, "q_") || strings.Contains(b, "q_") {
+		return eq // bound variable: no ground instance possible
+	}
 	for _, pair := range [][2]string{{a, b}, {b, a}} {
 		x, c := pair[0], pair[1]
 		for lit, name := range e.strConsts {
